@@ -24,9 +24,9 @@ def validate(ctx, lines):
         states += r.distinct
         if r.violated:
             ls = re.findall(r"/\\ l = (\d+)", r.out)
-            vs = re.findall(r"/\\ viol = (\{[^}]*\})", r.out)
+            vs = re.findall(r"/\\ viol = (\{[^}]*\})", r.out, re.S)
             k = int(ls[-1]) - 1 if ls else 1      # the step that produced the bad state consumed line l-1
-            names = vs[-1] if vs else "{}"
+            names = "+".join(sorted(re.findall(r'"([^"]+)"', vs[-1]))) if vs else "unknown"
             what = r.violated if r.violated == "Agreement" else names
             pos = 0
             for j, s in enumerate(remaining):
